@@ -6,8 +6,10 @@ parsers, ops[at] is the call under test.  The runner (tie/impl/c09_history.py) r
 carried state before/after the call and the answers of the re-used and of a fresh parser (fresh process).
 """
 import json
+import sys
 
-from tie.framework import TieBroken, g_bool, g_list, g_nat, g_N, g_opt, g_pair, g_str, run_impl_parallel
+from tie import framework
+from tie.framework import TieBroken, g_bool, g_list, g_nat, g_N, g_opt, g_pair, g_str, run_impl, run_impl_parallel
 
 PROP = "C09"
 IMPORTS = "From JV Require Import Lib.Base Model.C09ParserState Spec.C09Spec Corr.C09Judge."
@@ -160,7 +162,7 @@ def gen_argv(rng, decl):
                 toks.append(["opt", cn + ".a", val_for(rng, "int")])
             else:
                 toks.append(["opt", cn + ".help", cls])
-                if rng.random() < 0.3:
+                if rng.random() < 0.45:
                     toks.append(["opt", cn + "." + rng.choice(["a", "c", "zz"]), "3"])
                 break
         elif x < 0.78:
@@ -262,16 +264,58 @@ SCRIPTED = [
 ]
 
 
+PLAIN = {"root": {"cfg": True, "opts": [["k", "int"], ["s", "str"]], "req": [], "cls": [], "links": []},
+         "subreq": False, "subs": []}
+CB = {"root": {"cfg": True, "opts": [["k", "int"], ["s", "str"]], "req": [], "cls": [["cb", True]], "links": []},
+      "subreq": False, "subs": []}
+MODEL = {"root": {"cfg": True, "opts": [["k", "int"], ["s", "str"]], "req": [], "cls": [["model", False]], "links": []},
+         "subreq": False, "subs": []}
+# the refutation witnesses of coq/Properties/C09.v (C09_*_refuted), in FINDING_CLASSES order; the last call is the
+# one whose answer depends on the history
+WITNESSES = [
+    ("print-config-pending", [PLAIN, PLAIN],
+     [{"p": 0, "op": "parse_args", "argv": [["flag", "print_config"], ["opt", "k", "bad"]]},
+      {"p": 0, "op": "parse_args", "argv": []}]),
+    ("lazy-print-shtab-key", [PLAIN, PLAIN],
+     [{"p": 0, "op": "parse_args", "argv": [["opt", "k", "2"]]},
+      {"p": 0, "op": "parse_object", "items": [["k", "3"], ["print_shtab", "bash"]]}]),
+    ("class-help-skip-shared", [CB, MODEL],
+     [{"p": 0, "op": "parse_args", "argv": [["opt", "cb.help", "SubA"]]},
+      {"p": 1, "op": "parse_args", "argv": [["opt", "model.help", "SubA"]]}]),
+]
+_FX = {}
+
+
+def probe_fixes():
+    """Which of the three repairs (fixes/C09-*.patch) the tree under test contains: a repair counts as present exactly
+    when its refutation witness no longer reproduces on the implementation.  The answer only selects between the
+    pinned and the repaired variant of the model at the three sites (Model.C09ParserState.fixes)."""
+    if framework.REPO not in _FX:
+        res = run_impl("c09_history.py", {"cases": [{"parsers": d, "ops": o} for _, d, o in WITNESSES]})
+        flags = []
+        for (key, _, _), h in zip(WITNESSES, res):
+            if "crash" in h:
+                raise TieBroken("runner crashed on the witness of " + key + ": " + h["crash"][-600:])
+            last = h["steps"][-1]
+            flags.append(last["out"]["kind"] == last["fresh"]["kind"] and last["out"]["tok"] == last["fresh"]["tok"])
+        _FX[framework.REPO] = flags
+    return _FX[framework.REPO]
+
+
+def extra_coverage(tier):
+    fx = probe_fixes()
+    return {"model_variant": {k: ("repaired" if f else "pinned") for (k, _, _), f in zip(WITNESSES, fx)}}
+
+
 def scripted_cases():
-    plain = {"root": {"cfg": True, "opts": [["k", "int"], ["s", "str"]], "req": [], "cls": [], "links": []},
-             "subreq": False, "subs": []}
+    plain = PLAIN
     subs = {"root": {"cfg": True, "opts": [["k", "int"], ["s", "str"]], "req": [], "cls": [["model", False]], "links": []},
             "subreq": False,
             "subs": [["fit", {"cfg": True, "opts": [["lr", "int"]], "req": [], "cls": []}],
                      ["test", {"cfg": False, "opts": [["n", "int"]], "req": [], "cls": []}]]}
     cb = {"root": {"cfg": True, "opts": [["k", "int"], ["s", "str"]], "req": [], "cls": [["cb", True]], "links": []},
           "subreq": False, "subs": []}
-    hs = [([plain, plain], h) for h in SCRIPTED]
+    hs = [([plain, plain], h) for h in SCRIPTED] + [(d, o) for _, d, o in WITNESSES]
     hs.append(([subs, plain], [
         {"p": 0, "op": "parse_args", "argv": [["pos", "fit"], ["flag", "print_config"], ["opt", "lr", "bad"]]},
         {"p": 0, "op": "parse_args", "argv": [["pos", "test"]]},
@@ -280,6 +324,23 @@ def scripted_cases():
     hs.append(([subs, plain], [
         {"p": 0, "op": "parse_args", "argv": [["pos", "fit"], ["flag", "print_config"], ["opt", "lr", "bad"]]},
         {"p": 0, "op": "parse_args", "argv": [["opt", "k", "2"], ["cfg", [["fit.lr", "7"]]], ["opt", "s", "q"]]}]))
+    # parser.args is read by the class help (get_args_after_opt): a stale argv would turn the error into a help page
+    hs.append(([subs, cb], [
+        {"p": 0, "op": "parse_args", "argv": [["opt", "k", "2"]]},
+        {"p": 1, "op": "parse_args", "argv": [["opt", "s", "q"], ["opt", "k", "3"]]},
+        {"p": 0, "op": "parse_args", "argv": [["opt", "model.help", "SubA"], ["opt", "model.a", "3"]]},
+        {"p": 1, "op": "parse_args", "argv": [["opt", "cb.help", "SubB"], ["opt", "cb.b", "q"]]},
+        {"p": 0, "op": "parse_args", "argv": [["opt", "model.help", "SubA"]]}]))
+    # a successful --print_config / --help / class help must leave nothing behind either
+    hs.append(([subs, plain], [
+        {"p": 0, "op": "parse_args", "argv": [["opt", "k", "2"], ["flag", "print_config"]]},
+        {"p": 0, "op": "parse_args", "argv": [["opt", "k", "3"]]},
+        {"p": 0, "op": "parse_args", "argv": [["pos", "fit"], ["opt", "print_config", "skip_null"]]},
+        {"p": 0, "op": "parse_object", "items": [["k", "bad"]]},
+        {"p": 0, "op": "parse_args", "argv": [["flag", "help"]]},
+        {"p": 0, "op": "parse_string", "items": [["k", "5"], ["fit.lr", "2"]]},
+        {"p": 0, "op": "parse_args", "argv": []},
+        {"p": 0, "op": "get_defaults"}]))
     hs.append(([cb, subs], [
         {"p": 0, "op": "parse_args", "argv": [["opt", "cb.help", "SubA"]]},
         {"p": 1, "op": "parse_args", "argv": [["opt", "model.help", "SubA"]]},
@@ -289,7 +350,7 @@ def scripted_cases():
 
 def generate(rng, tier):
     hists = scripted_cases()
-    n = 150 if tier == "quick" else 2500
+    n = 150 if tier == "quick" else 1600
     for _ in range(n):
         decls = [gen_decl(rng), gen_decl(rng)]
         ln = rng.choice([1, 2, 3, 4, 6, 8, 10, 12, 12])
@@ -299,6 +360,28 @@ def generate(rng, tier):
         for i in range(len(ops)):
             cases.append({"parsers": decls, "ops": ops, "at": i})
     return cases
+
+
+def search(rng, tier, broken):
+    """Failing-input search when the tie (or a proof) broke although no listed-free failure showed up in the main run:
+    fresh histories in rounds, judged like the main run; the first case whose real answer differs from the fresh
+    parser's answer and that is not one of the listed findings is the failing input."""
+    known = framework.load_known_findings(PROP)
+    mod = sys.modules[__name__]
+    for rnd in range(10):
+        hists = []
+        for _ in range(160):
+            decls = [gen_decl(rng), gen_decl(rng)]
+            ln = rng.choice([2, 3, 4, 6, 8, 10, 12])
+            hists.append((decls, [gen_op(rng, decls) for _ in range(ln)]))
+        cases = [{"parsers": d, "ops": ops, "at": i} for d, ops in hists for i in range(1, len(ops))]
+        obs = observe(cases)
+        _, bad_in, bad_out = framework.judge_cases(mod, cases, obs, tag="x%d" % rnd)
+        bad = sorted(set(bad_in) | {i for i, k in bad_out if FINDING_CLASSES.get(k) not in known})
+        if bad:
+            i = min(bad, key=lambda j: cases[j]["at"])
+            return {"case": cases[i], "observed": obs[i], "explain": describe(cases[i], obs[i])}
+    return None
 
 
 # ------------------------------------------------------------------------------------------------
@@ -318,6 +401,7 @@ def observe(cases):
         for k, h in zip(ch, r):
             runs[k] = h
     out = []
+    fx = probe_fixes()
     for c in cases:
         h = runs[json.dumps([c["parsers"], c["ops"]], sort_keys=True)]
         if "crash" in h:
@@ -325,7 +409,7 @@ def observe(cases):
         i = c["at"]
         st = h["steps"][i]
         out.append({"pre": h["init"] if i == 0 else h["steps"][i - 1]["state"], "post": st["state"],
-                    "out": st["out"], "fresh": st["fresh"]})
+                    "out": st["out"], "fresh": st["fresh"], "fx": fx})
     return out
 
 
@@ -443,7 +527,8 @@ def g_answer(a):
 
 def term(case, obs):
     i = case["at"]
-    return ("{| c_decls := %s; c_prefix := %s; c_op := %s; c_pre := %s; c_post := %s; c_reused := %s; c_fresh := %s |}") % (
+    return ("{| c_fx := {| fx_pc := %s; fx_sh := %s; fx_hs := %s |}; c_decls := %s; c_prefix := %s; c_op := %s; c_pre := %s; c_post := %s; c_reused := %s; c_fresh := %s |}") % (
+        g_bool(obs["fx"][0]), g_bool(obs["fx"][1]), g_bool(obs["fx"][2]),
         g_list([g_decl(d) for d in case["parsers"]], "decl"),
         g_list([g_op(o) for o in case["ops"][:i]], "op"),
         g_op(case["ops"][i]), g_state(obs["pre"]), g_state(obs["post"]), g_answer(obs["out"]), g_answer(obs["fresh"]))
@@ -498,7 +583,42 @@ def shrink(case):
 
 
 META = {
-    "level_text": "placeholder",
-    "level_note": "placeholder",
-    "technique": "placeholder",
+    "level_text": (
+        "Proof about a state-machine model of the state jsonargparse parsers carry between calls (pending --print_config "
+        "request, stored argv, lazily added --print_shtab action per root parser; parse_kwargs / subclass_arg_parser / "
+        "dump_kwargs context variables and the class-level dict of the class-help action per process), coq/Properties/C09.v: "
+        "C09_guarded_answer_is_fresh_answer / C09_history_independent_guarded — for every variant of the model, ANY carried "
+        "state (hence every history of any length over any number of parsers, failing, help-printing and config-printing "
+        "calls included) and every call inside the guard, the answer is the answer of the same call on fresh parsers in a "
+        "fresh process; the guard excludes exactly three reads of carried state. Each of the three is a defect of the "
+        "pinned tree, proved by witness (C09_print_config_pending_refuted, C09_print_config_broken_refuted, "
+        "C09_lazy_print_shtab_key_refuted, C09_class_help_skip_shared_refuted, C09_full_statement_refuted_on_pinned_tree), "
+        "reproduced on the implementation in every run and listed in known_findings/C09.txt with a small patch each "
+        "(fixes/C09-*.patch). C09_class_needs_missing_repair: after any history a finding class can only be met when the "
+        "corresponding repair is absent (invariant: with the print_config repair no request is pending after any call); "
+        "C09_repaired_history_independent: the model of the tree with the three patches satisfies the full statement with "
+        "no guard. C09_other_parser_untouched: a call never changes what another parser carries itself. "
+        "Only exercised by the correspondence run (not proved about the code): that the model is the code. The run executes "
+        "seeded histories of 1-12 calls over two real parsers (config argument, int/str/required options, class-typed and "
+        "Callable-typed options, a parse-time link, optional/required sub-commands) and compares, per step and inside "
+        "Coq, (a) the abstraction of the REAL carried state before and after the step (deep snapshot of every parser's and "
+        "action's __dict__, all jsonargparse ContextVars, mutable module globals and class attributes; anything the model "
+        "does not explain is a disagreement) with the model state, (b) the kind of answer on the re-used parser and on a "
+        "fresh parser built in a pristine forked process with the model's answers, and (c) equality of the two real "
+        "answers (result / ArgumentError text / exit status, stdout, stderr) with equality of the model's answers. The "
+        "values inside an answer are not modelled (the model's answer is the path the call took); their history "
+        "independence is checked only by the fresh-vs-reused comparison of the real answers on the generated histories."),
+    "level_note": (
+        "Partial: the theorems are about the modelled state components and the modelled parser shapes; the per-step state "
+        "correspondence (unexplained differences of the deep snapshot count as disagreement) is what argues that nothing "
+        "else is carried, on the generated histories only. Not modelled: values/messages inside answers, default_config_files, "
+        "default_env=True, ActionParser, nested sub-commands, dataclass-in-container sub_add_kwargs['default'] (DESIGN 5.9 "
+        "candidate, not reproduced), threads / several contextvars.Context. The model variant (pinned or repaired at each of "
+        "the three sites) is selected per run by replaying the three refutation witnesses on the implementation and is "
+        "recorded in the evidence (coverage.model_variant). Trusted: Coq kernel/VM, tie/impl/c09_history.py (builder, "
+        "abstraction, forked fresh references), the Gallina printer in tie/props/c09.py, sha256 digests for answer equality, "
+        "presence of the shtab package. No axioms (Print Assumptions: closed under the global context)."),
+    "technique": ("Rocq proof: frame (read-set) lemma for the step function of a parser state machine by induction on argv "
+                  "and item lists, invariants over histories for the repaired variants, vm_compute witnesses for the three "
+                  "defects; per-step state-and-answer correspondence against the real objects judged inside Coq"),
 }
